@@ -21,14 +21,17 @@ if sys.argv[1] == "--stage-a-failed":
     sys.exit(0)
 
 exe, subs_path, tier = sys.argv[2], sys.argv[3], sys.argv[4]
-subs = json.load(open(subs_path))
+NO_LOOM = os.environ.get("C18_NO_LOOM") == "1"
+subs = json.load(open(subs_path)) if os.path.exists(subs_path) else {"total": 0, "files": {}}
 thorough = tier == "thorough"
 # (body, threads, preemption bound)
 if thorough:
-    jobs = [("B1", 2, "none"), ("B1", 3, "3"), ("B2", 2, "none"), ("B2", 3, "3"), ("B3", 2, "none"), ("B3", 3, "3"), ("B4", 2, "none"), ("B4", 3, "none"), ("B4", 4, "3"), ("B5", 2, "none"), ("B5", 3, "3")]
+    jobs = [("B1", 2, "none"), ("B1", 3, "3"), ("B2", 2, "none"), ("B2", 3, "3"), ("B3", 2, "none"), ("B3", 3, "3"), ("B4", 2, "none"), ("B4", 3, "none"), ("B4", 4, "3"), ("B5", 2, "none"), ("B5", 3, "3"), ("B6", 2, "none"), ("B6", 3, "none")]
 else:
-    jobs = [("B1", 2, "3"), ("B1", 3, "2"), ("B2", 2, "3"), ("B2", 3, "2"), ("B3", 2, "none"), ("B3", 3, "2"), ("B4", 2, "none"), ("B4", 3, "3"), ("B5", 2, "3"), ("B5", 3, "2")]
+    jobs = [("B1", 2, "3"), ("B1", 3, "2"), ("B2", 2, "3"), ("B2", 3, "2"), ("B3", 2, "none"), ("B3", 3, "2"), ("B4", 2, "none"), ("B4", 3, "3"), ("B5", 2, "3"), ("B5", 3, "2"), ("B6", 2, "none"), ("B6", 3, "3")]
 timeout = 3300 if thorough else 100
+if NO_LOOM:
+    jobs = []
 
 def run(job):
     body, threads, bound = job
@@ -83,11 +86,11 @@ for job, rc, out, err, wall in results:
     elif rc == -999:
         row.update(complete=False, note="wall cap hit - this body/bound is NOT covered"); capped.append(row)
     else:
-        msg = [l for l in err.splitlines() if "panicked" in l or "assert" in l or "B1:" in l or "B2:" in l or "B3:" in l or "B4:" in l or "B5" in l or "Arc" in l or "deadlock" in l.lower() or "leak" in l.lower()]
+        msg = [l for l in err.splitlines() if "panicked" in l or "assert" in l or "B1:" in l or "B2:" in l or "B3:" in l or "B4:" in l or "B5" in l or "B6" in l or "Arc" in l or "deadlock" in l.lower() or "leak" in l.lower()]
         row.update(complete=False, failed=True, exit=rc, message=" | ".join(msg[:6])[-900:] or err[-600:])
         viol.append(row)
     table.append(row)
-vac = subs["total"] == 0
+vac = subs["total"] == 0 or NO_LOOM
 cov = {
     "states": max(execs, 1), "transitions": max(calls, 1), "traces_validated_against_impl": execs,
     "evaluations": max(execs, 1), "distinct_nontrivial": execs,
@@ -96,6 +99,7 @@ cov = {
                 {"body": "B2", "what": "threads take different actions from a shared state, play 2 more turns on the shared history tail, drop in different orders"},
                 {"body": "B3", "what": "state handed over through a Mutex and expanded in the receiving thread while parent and sibling are used and dropped in the sender"},
                 {"body": "B5", "what": "k threads expand a shared mid-turn state in which the pass is withheld as a third repetition (eight shuffling turns behind it) and the turn-start state before it"},
+                {"body": "B6", "what": "k owners of lists sharing a 300-node tail drop them concurrently; a probe in every element's Drop bounds the stack used below the drop call (a release path that recurses once per node would abort the process for long histories, which is not 'the result of sequential expansion')"},
                 {"body": "B4", "what": "several lists sharing a 4-node tail are read, tail()-ed and dropped concurrently (iterative Drop / Arc::into_inner race)"}],
     "exhaustive": (not capped) and (not vac),
     "exhaustive_meaning": "every interleaving of each listed body within the listed preemption bound ('none' = unbounded) was executed by loom",
@@ -110,7 +114,9 @@ else:
     viol_count_extra = 0
 write_evidence(tier, cov, time.time() - t0, len(viol) + viol_count_extra, ASSUME)
 print("C18 %s: executions=%d engine_calls=%d substituted_sites=%d bodies=%d wall=%.1fs" % (tier, execs, calls, subs["total"], len(table), time.time() - t0))
-if vac:
+if NO_LOOM:
+    print("NOTE: the instrumented copy does not build under loom (the tree uses a std::sync API that loom 0.7.2 + vendor shims do not model; see target/build-loomh.log) - stage B was NOT run; the verdict rests on stage A (type checker) and stage C (Miri) only")
+elif vac:
     print("NOTE: 0 std::sync/std::thread sites were substituted - stage B is vacuous by construction; verdict rests on stage A")
 if miri.get("violation"):
     viol.append({"body": "stage C (Miri, std threads)", "threads": 3, "preemption_bound": "n/a", "message": miri.get("message", "")})
